@@ -58,6 +58,7 @@ type monState struct {
 	forcedCancel map[string]bool // jobs cancelled by forced shutdown
 	undefinedAt  map[string]int  // pipeline -> last step at which a reload left it undefined
 	lastSeen     map[string]*JobSnap // last API report of every job ever seen
+	saveOps      map[int]*saveOpInfo // client -> explicit save in flight (C12 r6c)
 	snapAtSave   map[int]*Snap       // handed-save index -> API snapshot at the instant the snapshot was built
 	lastChangeAt time.Duration       // fake time of the last step that changed the reported state
 	liveExec      map[string]int     // job -> scheduler runs begun and not yet completed
@@ -170,6 +171,8 @@ func (m *monState) onStep(si *StepInfo, pre, post *Snap, evs []Event) {
 			m.checkReload(si, res, pre, post)
 		case "shutdown":
 			m.checkShutdownReturn(si, res, pre, post)
+		case "save":
+			m.checkSaveReturn(si, res, post)
 		case "http":
 			if res.Route != "" {
 				m.checkAuthHTTP(si, res, pre, post, evs)
@@ -360,7 +363,14 @@ func (m *monState) checkSchedule(si *StepInfo, res *OpResult, pre, post *Snap) {
 			run.violate("C05", "r1", "%srequest was accepted as %s", desc, res.Job)
 			return
 		}
-		if res.Err != expect && !(expect == "undefined" && strings.HasPrefix(res.Err, "other:")) {
+		// The statement says "rejected", not with which words: the two queue errors are unexported values, the harness
+		// can only read their text, so any refusal that is not one of the *other* known classes is the expected one.
+		same := res.Err == expect
+		switch expect {
+		case "noqueue", "queuefull", "undefined":
+			same = same || strings.HasPrefix(res.Err, "other:") || res.Err == "noqueue" || res.Err == "queuefull"
+		}
+		if !same {
 			run.violate("C05", "r1", "%srequest was rejected with %q", desc, res.Err)
 		}
 		if pre.digest() != post.digest() {
@@ -678,15 +688,21 @@ func (m *monState) checkCancel(si *StepInfo, res *OpResult, pre, post *Snap) {
 			run.violate("C04", "r5", "step %d: cancel of already canceled job %s changed it", si.N, res.Job)
 		}
 	case pj.Completed:
-		if res.Err == "" || res.Err == "notfound" {
-			run.violate("C04", "r5", "step %d: cancel of finished job %s returned %q, want an error", si.N, res.Job, res.Err)
+		// "a finished job is left unchanged": whether the request is answered with an error is not part of the statement
+		if res.Err == "notfound" {
+			run.violate("C04", "r5", "step %d: cancel of finished job %s, which is reported by the API, returned not found", si.N, res.Job)
 		}
 		if nj == nil || pj.digest() != nj.digest() {
 			run.violate("C04", "r5", "step %d: cancel of finished job %s changed it", si.N, res.Job)
 		}
 	default:
 		if res.Err != "" {
-			run.violate("C04", "r0", "step %d: cancel of unfinished job %s was refused with %q", si.N, res.Job, res.Err)
+			// not acknowledged: the statement speaks about acknowledged requests only (a runner may, for instance, refuse
+			// cancels while it shuts down). Unknown is the one answer it must not give for a job it reports.
+			if res.Err == "notfound" {
+				run.violate("C04", "r0", "step %d: cancel of unfinished job %s, which is reported by the API, returned not found", si.N, res.Job)
+			}
+			run.probe("cancel_refused")
 			return
 		}
 		c := cancelAck{Job: res.Job, Step: si.N, WasStarted: pj.Start != nil, World: run.cur.id}
